@@ -48,6 +48,10 @@ def label(tokeniser: Any) -> Labels:
             if lbl < 0 or lbl > Labels.MAX:
                 raise ValueError(f'MPLS label {lbl} out of range\n  Must be 0 to {Labels.MAX} (20-bit)')
             labels.append(lbl)
+        # 0x000000 and 0x800000 in the label field are read as "no more labels" (RFC 8277 withdraw
+        # values): label 0 or 524288 can only be the last label of a stack
+        if any(entry in (0, 0x80000) for entry in labels[:-1]):
+            raise ValueError('MPLS label 0 and 524288 can only be the last label of a label stack')
     else:
         lbl = int(value)
         if lbl < 0 or lbl > Labels.MAX:
@@ -61,9 +65,12 @@ def route_distinguisher(tokeniser: Any) -> RouteDistinguisher:
     data = tokeniser()
 
     separator = data.find(':')
-    if separator > 0:
-        prefix = data[:separator]
-        suffix = int(data[separator + 1 :])
+    if separator <= 0:
+        raise ValueError(f'invalid route-distinguisher {data}\n  Format: <asn>:<number> or <ipv4>:<number>')
+    prefix = data[:separator]
+    suffix = int(data[separator + 1 :])
+    if suffix < 0:
+        raise ValueError(f'invalid route-distinguisher {data}')
 
     if '.' in prefix:
         data_list: list[bytes] = [bytes([0, 1])]
@@ -72,6 +79,8 @@ def route_distinguisher(tokeniser: Any) -> RouteDistinguisher:
         rtd = b''.join(data_list)
     else:
         number = int(prefix)
+        if number < 0:
+            raise ValueError(f'invalid route-distinguisher {data}')
         if number < pow(2, 16) and suffix < pow(2, 32):
             rtd = bytes([0, 0]) + pack('!H', number) + pack('!L', suffix)
         elif number < pow(2, 32) and suffix < pow(2, 16):
